@@ -66,12 +66,23 @@ class TlsNetwork(Network):
         self.servers = AliasServers()
         self.downgrade = downgrade      # peer answers TLS = no
         self.hostile_netlocs = set()    # network locations AS WRITTEN by the client that do not answer TLS
+        self.wsdl_elsewhere = False
         self.events: list[dict] = []    # connect attempts and client creations, in order
         self.owner: dict[int, str] = {}  # port -> 'provider' | 'consumer'
         self.creating = None            # party whose start_all is running (owner of an own http server)
         self.own_servers: list = []
         self.contexts: dict[int, str] = {}   # id(ssl context) -> 'provider.client' ...
         self._next_port = 20001
+
+    def deliver(self, wire):
+        status, reason, response = super().deliver(wire)
+        if self.wsdl_elsewhere and response and b'wsdl' in response:
+            # the provider announces its WSDL under another network location than the hosted service's own
+            import re
+            response = re.sub(rb'(https?://)[^/<"]+(/[^<"]*\?wsdl)', rb'\g<1>' + IP.encode() + rb':10999\2',
+                              response if isinstance(response, bytes) else response.encode('utf-8'))
+            wire.response = response
+        return status, reason, response
 
     def alloc_port(self):
         self._next_port += 1
